@@ -211,9 +211,14 @@ def gen_cases(ctx):
     for a in [U.I(n) for n in range(0, 8)] + [U.from_py(x) for x in ([1, 2], [0, 3], [2, 2], [1, 3, 4], [])]:
         for b in seqs:
             cases.append(("D", ":_", a, b))
-    for a in U.OPERANDS[::3]:
-        for b in U.OPERANDS[::3]:
+    big = [U.I(100000), U.I(100001), U.I(99999), U.L(U.I(100000), U.Y("a")), U.L(U.I(100001), U.Y("a")),
+           U.from_py([100000, 1]), U.from_py([100001, 1]), U.C("a"), U.S("a")]
+    for a in U.OPERANDS[::3] + big:
+        for b in U.OPERANDS[::3] + big:
             cases.append(("D", "~", a, b))
+    for a in big:
+        for b in big[:3]:
+            cases.append(("D", "?", a, b))
     for a in U.OPERANDS[::2]:
         for b in U.OPERANDS[::2]:
             cases.append(("D", ",", a, b))
